@@ -1,42 +1,124 @@
+mod batch;
 mod disk;
 mod exec;
 mod gen;
+mod judge;
 mod model;
 mod obs;
 mod plan;
+mod regress;
 mod rng;
 mod run;
+mod selftest;
 mod stats;
 mod steps;
 mod steps2;
 mod view;
 
 use std::collections::BTreeMap;
+use std::path::Path;
+
+fn usage() -> ! {
+    eprintln!(
+        "usage: sodg-sim check <PROP> <quick|thorough>\n       sodg-sim replay <file>\n       sodg-sim selftest determinism [seeds]\n       sodg-sim mkregress\n       sodg-sim smoke <PROP> <runs> [seed]"
+    );
+    std::process::exit(2);
+}
 
 fn main() {
     let args: Vec<String> = std::env::args().collect();
     obs::install_quiet_panic_hook();
     match args.get(1).map(String::as_str) {
+        Some("check") => {
+            let (Some(prop), Some(tier)) = (args.get(2), args.get(3)) else { usage() };
+            if !batch::CLAIMED.contains(&prop.as_str()) {
+                eprintln!("property {prop} is not claimed (see MANIFEST.json not_applicable)");
+                std::process::exit(2);
+            }
+            std::process::exit(batch::check(prop, tier).exit);
+        }
+        Some("worker") => {
+            let prop = &args[2];
+            let tier = &args[3];
+            let seed: u64 = args[4].parse().unwrap();
+            let from: u64 = args[5].parse().unwrap();
+            let to: u64 = args[6].parse().unwrap();
+            let only = args
+                .get(8)
+                .map(|s| s.split(',').filter_map(|x| x.parse().ok()).collect::<Vec<u64>>());
+            batch::worker(prop, tier, seed, from, to, Path::new(&args[7]), only);
+        }
+        Some("journal") => {
+            // one run, every step journalled before it is executed
+            let prop = &args[2];
+            let thorough = args[3] == "thorough";
+            let seed: u64 = args[4].parse().unwrap();
+            let run_idx: u64 = args[5].parse().unwrap();
+            let s = rng::mix(seed, prop, run_idx);
+            let fault_free = prop == "C19" || (run_idx % 4 == 0 && prop != "C07");
+            let mut g = gen::Gen::new(s, prop, thorough, fault_free);
+            let cfg = g.cfg.clone();
+            use std::io::Write;
+            let mut file = std::fs::File::create(&args[6]).unwrap();
+            writeln!(file, "{}", serde_json::to_string(&cfg).unwrap()).unwrap();
+            file.flush().unwrap();
+            let mut j = run::Journal { inner: &mut g, file };
+            let out = run::run(&cfg, &mut j, judge::HARD_CAP, false);
+            let _ = out;
+        }
+        Some("exec-plan") => {
+            let txt = std::fs::read_to_string(&args[2]).unwrap();
+            let r: plan::Replay = serde_json::from_str(&txt).unwrap();
+            let out = run::replay(&r.cfg, &r.plan, false);
+            let _ = out;
+        }
+        Some("replay") => {
+            let Some(f) = args.get(2) else { usage() };
+            std::process::exit(batch::replay_file(Path::new(f)));
+        }
+        Some("selftest") => match args.get(2).map(String::as_str) {
+            Some("determinism") => {
+                let n = args.get(3).and_then(|s| s.parse().ok()).unwrap_or(2_000);
+                std::process::exit(selftest::determinism(n));
+            }
+            Some("trace") => {
+                // helper of the determinism self-test: print the event-log hashes of a range
+                let prop = &args[3];
+                let seed: u64 = args[4].parse().unwrap();
+                let from: u64 = args[5].parse().unwrap();
+                let to: u64 = args[6].parse().unwrap();
+                for r in from..to {
+                    let g = judge::generate_and_run(prop, seed, r, false);
+                    println!("{prop} {seed} {r} {:016x} {}", g.out.trace, g.out.steps_done);
+                }
+            }
+            _ => usage(),
+        },
+        Some("mkregress") => regress::write_all(),
         Some("smoke") => {
             let prop = args[2].clone();
             let n: u64 = args[3].parse().unwrap();
-            let seed: u64 = args.get(4).map_or(20_260_926, |s| s.parse().unwrap());
+            let seed: u64 = args.get(4).map_or(batch::DEFAULT_SEED, |s| s.parse().unwrap());
             let mut total = stats::Stats::default();
             let mut fails: BTreeMap<String, (u64, String)> = BTreeMap::new();
             let mut steps = 0;
             let t = std::time::Instant::now();
             for r in 0..n {
-                let s = rng::mix(seed, &prop, r);
-                let mut g = gen::Gen::new(s, &prop, false, r % 2 == 0);
-                let cfg = g.cfg.clone();
-                let out = run::run(&cfg, &mut g, 20_000, false);
-                steps += out.steps_done;
-                total.merge(&out.stats);
-                if let Some(f) = out.failure {
+                let g = judge::generate_and_run(&prop, seed, r, false);
+                steps += g.out.steps_done;
+                total.merge(&g.out.stats);
+                if let Some(f) = g.out.failure {
                     let e = fails.entry(f.clause.to_string()).or_insert((0, String::new()));
                     e.0 += 1;
                     if e.1.is_empty() {
                         e.1 = format!("run {r} step {} owners {:?}: {}", f.step, f.owners, f.message);
+                    }
+                }
+                if let Some(v) = g.verdict.violation {
+                    let e = fails.entry(format!("VERDICT {}", v.clause)).or_insert((0, String::new()));
+                    e.0 += 1;
+                    if e.1.is_empty() {
+                        e.1 = format!("run {r} step {}: {}", v.step, v.message);
                     }
                 }
             }
@@ -49,9 +131,6 @@ fn main() {
                 eprintln!("FAIL {k} x{c}: {m}");
             }
         }
-        _ => {
-            eprintln!("usage: sodg-sim smoke <prop> <runs> [seed]");
-            std::process::exit(2);
-        }
+        _ => usage(),
     }
 }
